@@ -7,9 +7,10 @@ import random
 import streamlib as sl
 from vlib import build_lib
 
-THEOREMS = ["C18_table_inv", "C18_table_inv_step", "C18_stale_skipped_oneshot", "C18_stale_skipped_stream", "C18_fastReset_any_state", "C18_history_roundtrip", "C18_hc_mid_reuse", "C18_hc_mid_step", "C18_hc_mid_fastReset", "C18_hc_mid_history", "C18_hc_chain_reuse", "C18_hc_chain_step", "C18_hc_chain_fastReset", "C18_hc_chain_history"]
+THEOREMS = ["C18_table_inv", "C18_table_inv_step", "C18_stale_skipped_oneshot", "C18_stale_skipped_stream", "C18_fastReset_any_state", "C18_history_roundtrip", "C18_hc_mid_reuse", "C18_hc_mid_step", "C18_hc_mid_fastReset", "C18_hc_mid_history", "C18_hc_chain_reuse", "C18_hc_chain_step", "C18_hc_chain_fastReset", "C18_hc_chain_history", "C18_hc_opt_reuse", "C18_hc_opt_step", "C18_hc_opt_fastReset", "C18_hc_opt_history"]
 ORACLES = ["stream"]
-CORRESPONDENCE = ["Model.HcChainStream (HC levels 3-9, the same API functions with their strat != lz4mid branches: LZ4HC_Insert in loadDictHC and setExternalDict, LZ4HC_clearTables, LZ4HC_compress_hashChain with nbSearches of the level, dictCtx copied / detached; histories that stay inside the hash-chain strategy) == lib/lz4hc.c: return value, consumed, bytes, md5 of the whole hashTable and of the chainTable, nextToUpdate, end/prefixStart/dictStart (arena addresses), dictLimit/lowLimit, level, dirty, dictCtx null/non-null after EVERY mirrored call; a change of strategy inside a history, levels >= 10 and the dictionary-context search LZ4HC_searchExtDict are outside the model (state re-imported afterwards)",
+CORRESPONDENCE = ["Model.HcOptStream = Model.HcTabStream (the streaming layer of HcChainStream, parametric in the block compressor) instantiated with the compressor of the level (LZ4HC_compress_hashChain 3-9, LZ4HC_compress_optimal 10-12 with nbSearches / targetLength / ultra / favorDecSpeed; LZ4_favorDecompressionSpeed; histories may change strategy chain <-> opt) == lib/lz4hc.c: return value, consumed, bytes, md5 of hashTable and chainTable, nextToUpdate, end/prefixStart/dictStart, dictLimit/lowLimit, level, dirty, favorDecSpeed, dictCtx null/non-null after EVERY mirrored call; level 10-12 calls on more than streamlib.OPT_MODEL_MAX input bytes are not mirrored (extracted optimal parser too slow): direct oracles, state re-imported afterwards",
+                  "Model.HcChainStream (HC levels 3-9, the same API functions with their strat != lz4mid branches: LZ4HC_Insert in loadDictHC and setExternalDict, LZ4HC_clearTables, LZ4HC_compress_hashChain with nbSearches of the level, dictCtx copied / detached; histories that stay inside the hash-chain strategy) == lib/lz4hc.c: return value, consumed, bytes, md5 of the whole hashTable and of the chainTable, nextToUpdate, end/prefixStart/dictStart (arena addresses), dictLimit/lowLimit, level, dirty, dictCtx null/non-null after EVERY mirrored call; a change of strategy inside a history, levels >= 10 and the dictionary-context search LZ4HC_searchExtDict are outside the model (state re-imported afterwards)",
                   "Model.HcMidStream (HC levels 1-2: initStreamHC, resetStreamHC(_fast), setCompressionLevel, loadDictHC/LZ4MID_fillHTable, attach_HC_dictionary with the dictionary context copied / detached / searched in place (LZ4MID_searchExtDict = Model.HcMidDict), setExternalDict, overlap trimming, 2 GB reload, compress_HC_continue(_destSize), saveDictHC (fixes F17, F18), extStateHC(_fastReset)) == lib/lz4hc.c: return value, consumed, bytes, both LZ4MID hash tables, end/prefixStart/dictStart (arena addresses), dictLimit/lowLimit/nextToUpdate, level, dirty, dictCtx null/non-null after EVERY mirrored call; calls at levels >= 3 or searching a dictionary context whose stream is at a level >= 3 (LZ4MID_searchHCDict) are outside the model (state re-imported afterwards)",
                   "Model.FastStream / Model.FastApi (prepareTable reset conditions, fastReset one-shots, extState, destSize_extState, resetStream_fast, "
                   "streaming sessions, loadDict, attach, failed calls) == lib/lz4.c: return value, output bytes and whole public stream state after EVERY operation of the history"]
@@ -36,7 +37,7 @@ def gen_cases(tier, seed):
         fam = "f" if i % 3 < 2 else "h"
         big = i % 7 == 0
         cases.append({"bseed": rng.randrange(1 << 48), "kind": "reuse_" + fam, "fam": fam,
-                      "p": {"levels": [1, 2, 2] if (fam == "h" and i % 4 == 0) else [3, 4, 6, 9] if (fam == "h" and i % 4 == 2) else sl.HC_LEVELS_CHEAP, "nops": rng.choice([14, 25, 40]) if not big else 14, "pbig": 0.3 if big else 0.04, "pmid": 0.3 if big else 0.25,
+                      "p": {"levels": [1, 2, 2] if (fam == "h" and i % 4 == 0) else [3, 4, 6, 9] if (fam == "h" and i % 4 == 2) else [10, 11, 12, 5] if (fam == "h" and i % 4 == 1) else sl.HC_LEVELS_CHEAP, "nops": rng.choice([14, 25, 40]) if not big else 14, "pbig": 0.3 if big else 0.04, "pmid": 0.3 if big else 0.25,
                             "arena_in": 500000 if big else 300000},
                       "arena": (500000 if big else 300000) + 3 * sl.K64 + 8192, "mirror": False, "ring": i % 2 == 0})
     # attach, compress nothing (or an empty input) on a cleared table, reset, dictionary-less session with dictionary-like content:
